@@ -304,6 +304,16 @@ def gen_history(rng, length, start=None):
     for _ in range(length):
         r = rng.random()
         op = gen_valid(rng, sh) if r < 0.6 else gen_wild(rng, sh) if r < 0.85 else gen_illegal(rng, sh)
+        if op[0] == "add" and rng.random() < 0.22:
+            # the flags the parsers use: missing neighbours are created / an existing node is redefined
+            redef = rng.random() < 0.4
+            n = op[1]
+            if redef and sh.n and rng.random() < 0.7:
+                n = rng.choice(sorted(sh.n))
+            fi, fo = op[3], op[4]
+            if rng.random() < 0.5:
+                fi = (U.norm(fi, False) + [rng.choice(NAMES + ["zz", "1x", ""])])[:3]
+            op = ["addx", n, op[2], fi, fo, op[5], rng.random() < 0.75, redef, op[6] and not redef]
         if op[0] in ("add_blackbox", "add_subcircuit") and op[-1]:
             op[-1] = [[k, v] for k, v in {k: v for k, v in op[-1]}.items()]     # a dict has each key once
         ops.append(op)
@@ -356,6 +366,9 @@ def cop(op, st):
     k = op[0]
     if k == "add":
         return "A %s %s %s %s %s %s" % (cs(op[1]), cty(op[2]), csl(U.norm(op[3], False)), csl(U.norm(op[4], False)), cb(op[5]), cb(op[6]))
+    if k == "addx":
+        return "Ax %s %s %s %s %s %s %s %s" % (cs(op[1]), cty(op[2]), csl(U.norm(op[3], False)), csl(U.norm(op[4], False)), cb(op[5]),
+                                               cb(op[6]), cb(op[7]), cb(op[8]))
     if k == "connect":
         return "Cn %s %s" % (csl(U.norm(op[1])), csl(U.norm(op[2])))
     if k == "disconnect":
@@ -397,6 +410,8 @@ def classify(case, obs):
     out = ["start:" + ("generated" if case["start"] else "empty")]
     for op, st in zip(ops, obs["steps"]):
         tag = op[0] + ("(uid)" if op[0] == "add" and op[6] else "")
+        if op[0] == "addx":
+            tag = "add(" + ",".join(f for f, b in (("connected", op[6]), ("redef", op[7]), ("uid", op[8])) if b) + ")"
         out.append(f"{tag}:{st['oc']}")
     if "shrunk_ops" in obs:
         out.append("shrunk")
